@@ -48,6 +48,7 @@ type lDecl struct {
 	// func
 	Name     string
 	BodyNote string   // comment inside the body (noise)
+	BodyDecl int // declarations INSIDE the function body, each with a marker comment in front (1: interface type, 2: var block, 3: both): not package-level declarations
 	Detached []string // a detached comment group before the declaration (noise)
 }
 
@@ -214,6 +215,9 @@ func genLayout(r *rng.R, names *nameGen, allowD13 bool) []lDecl {
 			if r.Chance(40) {
 				d.BodyNote = genText(r)
 			}
+			if r.Chance(30) {
+				d.BodyDecl = 1 + r.Intn(3)
+			}
 		}
 		ds = append(ds, d)
 	}
@@ -308,6 +312,12 @@ func renderFile(pkg string, ds []lDecl) string {
 			b.WriteString("func " + d.Name + "() {\n")
 			if d.BodyNote != "" {
 				b.WriteString("\t// " + strings.ReplaceAll(d.BodyNote, "\n", " ") + "\n")
+			}
+			if d.BodyDecl&1 != 0 {
+				b.WriteString("\t// goverter:converter\n\t// goverter:name InBody\n\ttype local" + d.Name + " interface{ M(int) string }\n\tvar _ local" + d.Name + "\n")
+			}
+			if d.BodyDecl&2 != 0 {
+				b.WriteString("\t// goverter:variables\n\t// goverter:skipCopySameType\n\tvar (\n\t\t// goverter:ignore X\n\t\tlv" + d.Name + " func(int) int\n\t)\n\t_ = lv" + d.Name + "\n")
 			}
 			b.WriteString("}\n\n")
 			continue
